@@ -614,6 +614,8 @@ def reader_multi(ctx: Ctx) -> None:
             # any read of param.components must be a recognised tail
             if isinstance(node, ast.Attribute) and node.attr == "components" and isinstance(node.value, ast.Name) and node.value.id in pv:
                 par = parent(fi, node)
+                if isinstance(par, ast.Call) and isinstance(par.func, ast.Name) and par.func.id == "len" and par.args == [node]:
+                    continue  # counting the components is a test of presence, not a use
                 if not (isinstance(par, ast.Subscript) and _is_components_tail(par, pv)):
                     ctx.bad("R-TABLE", fi, f"use of {src(node)}", f"{src(par) if par is not None else src(node)} is not components[1:]", node=node)
                     continue
@@ -628,6 +630,14 @@ def reader_multi(ctx: Ctx) -> None:
                     ctx.expect("R-TABLE", fi, "components re-joined with ':'", sep == ":", repr(sep), f"separator is {sep!r}, the writer splits on ':'", node=user)
                     ctx.expect("R-TABLE", fi, "all components kept only under key in MULTI_VALUE_PROPERTIES", inm is True, unparse_facts(fs),
                                f"join of all components happens under {unparse_facts(fs)}", node=user)
+                    present = any(pol and isinstance(a, ast.Compare) and len(a.ops) == 1 and (
+                        (isinstance(a.ops[0], ast.IsNot) and isinstance(a.comparators[0], ast.Constant) and a.comparators[0].value is None and _is_value_read(a.left, pv))
+                        or (isinstance(a.ops[0], ast.Gt) and ast.unparse(a.left) in [f"len({v}.components)" for v in pv] and try_ev(ctx, fi, a.comparators[0]) == 1))
+                        for a, pol in fs) or any((not pol) and isinstance(a, ast.Compare) and len(a.ops) == 1 and isinstance(a.ops[0], ast.Is)
+                                                 and isinstance(a.comparators[0], ast.Constant) and a.comparators[0].value is None and _is_value_read(a.left, pv) for a, pol in fs)
+                    ctx.expect("R-NULL", fi, "a key-only multi-value parameter has no value (the join needs at least one value component)", present, unparse_facts(fs),
+                               f"':'.join(components[1:]) runs under {unparse_facts(fs)}: for a key-only parameter ('#ATTACKS;') it yields '' instead of no value, so a "
+                               f"key-only ATTACKS/DISPLAYBPM does not survive a save/load cycle", node=user)
                     tgt = parent(fi, user)
                     if isinstance(tgt, (ast.Assign, ast.AnnAssign)):
                         for t in (tgt.targets if isinstance(tgt, ast.Assign) else [tgt.target]):
@@ -644,6 +654,25 @@ def reader_multi(ctx: Ctx) -> None:
                 values += 1
                 fs = facts(ctx, fi, node)
                 inm = _fact_in_multi(ctx, fi, fs, pv, multi)
+                if _is_none_test_operand(fi, node):
+                    values -= 1
+                    continue  # 'param.value is (not) None' is a test of presence, not a use of the value
+                if inm is not False:
+                    # accepted: the read is reachable with key in MULTI only when there is no value at all
+                    from ..flow import contradictory
+                    keys_ = _key_exprs(fi, pv)
+                    kexpr = None
+                    for a_, _p in fs:
+                        for sub_ in ast.walk(a_):
+                            if isinstance(sub_, ast.Compare) and isinstance(sub_.ops[0], (ast.In, ast.NotIn)) and norm(sub_.left) in keys_:
+                                t_ = try_ev(ctx, fi, sub_.comparators[0])
+                                if t_ is not None and set(t_) == set(multi):
+                                    kexpr = sub_
+                    if kexpr is not None:
+                        assume = list(fs) + [(kexpr, isinstance(kexpr.ops[0], ast.In)), (ast.parse(f"{node.value.id}.value is not None", mode="eval").body, True),
+                                             (ast.parse(f"len({node.value.id}.components) > 1", mode="eval").body, True)]
+                        if contradictory(assume):
+                            inm = False
                 ctx.expect("R-TABLE", fi, "first component only when key not in MULTI_VALUE_PROPERTIES", inm is False, unparse_facts(fs),
                            f"{src(node)} (first component only) is used under {unparse_facts(fs)}: further ATTACKS/DISPLAYBPM components would be lost", node=node)
                 tgt = parent(fi, node)
@@ -674,6 +703,16 @@ def reader_multi(ctx: Ctx) -> None:
                 ctx.expect("R-TABLE", fi, f"store {src(t, 40)} keeps the parameter's value unchanged", good_val, src(v),
                            f"stored value {src(v)} is not param.value / ':'.join(param.components[1:])", node=node)
         ctx.floor(f"{fi.qualname} stores", stores, 2)
+
+
+def _is_value_read(x: ast.AST, pv: Sequence[str]) -> bool:
+    return isinstance(x, ast.Attribute) and x.attr == "value" and isinstance(x.value, ast.Name) and x.value.id in pv
+
+
+def _is_none_test_operand(fi: FunctionInfo, node: ast.AST) -> bool:
+    par = parent(fi, node)
+    return isinstance(par, ast.Compare) and len(par.ops) == 1 and isinstance(par.ops[0], (ast.Is, ast.IsNot)) and isinstance(par.comparators[0], ast.Constant) \
+        and par.comparators[0].value is None and par.left is node
 
 
 def _is_value_source(x: ast.expr, pv: Sequence[str]) -> bool:
